@@ -751,7 +751,7 @@ func (state *schedulerState) resourceOffers(fidStore store.Singleton) events.Han
 
 									break FOR_PREMATCH_DESCRIPTORS
 								}
-								if !Resources(remainingResourcesInOffer).Satisfy(wants) {
+								if !Resources(remainingResourcesInOffer).Satisfy(state.withExecutorResources(wants)) {
 									if viper.GetBool("veryVerbose") {
 										log.WithPrefix("scheduler").
 											WithField("partition", envId.String()).
@@ -784,7 +784,7 @@ func (state *schedulerState) resourceOffers(fidStore store.Singleton) events.Han
 									descriptor,
 									wants,
 									limits,
-									remainingResourcesInOffer,
+									&remainingResourcesInOffer,
 									machinesUsed,
 									targetExecutorId,
 									envId,
@@ -871,7 +871,7 @@ func (state *schedulerState) resourceOffers(fidStore store.Singleton) events.Han
 										Error("invalid task class: no task class or no resource demands for descriptor, WILL NOT BE DEPLOYED")
 									continue FOR_DESCRIPTORS // next descriptor
 								}
-								if !Resources(remainingResourcesInOffer).Satisfy(wants) {
+								if !Resources(remainingResourcesInOffer).Satisfy(state.withExecutorResources(wants)) {
 									if viper.GetBool("veryVerbose") {
 										log.WithPrefix("scheduler").
 											WithField("partition", envId.String()).
@@ -899,7 +899,7 @@ func (state *schedulerState) resourceOffers(fidStore store.Singleton) events.Han
 									descriptor,
 									wants,
 									limits,
-									remainingResourcesInOffer,
+									&remainingResourcesInOffer,
 									machinesUsed,
 									targetExecutorId,
 									envId,
@@ -1326,19 +1326,46 @@ func logCalls(messages map[scheduler.Call_Type]string) callrules.Rule {
 	}
 }
 
+// withExecutorResources returns a copy of wants with the executor's own CPU and memory share added:
+// that share is added to the resource request of every task (see makeTaskForMesosResources), so an
+// offer must cover it as well.
+func (state *schedulerState) withExecutorResources(wants *Wants) *Wants {
+	w := *wants
+	executorResources := mesos.Resources(state.executor.Resources)
+	if cpu, ok := resources.CPUs(executorResources...); ok {
+		w.Cpu += cpu
+	}
+	if mem, ok := resources.Memory(executorResources...); ok {
+		w.Memory += float64(mem)
+	}
+	return &w
+}
+
 func makeTaskForMesosResources(
 	state *schedulerState,
 	offer *mesos.Offer,
 	descriptor *Descriptor,
 	wants *Wants,
 	limits *Limits,
-	remainingResourcesInOffer mesos.Resources,
+	remainingResourcesInOfferPtr *mesos.Resources,
 	machinesUsed map[string]struct{},
 	targetExecutorId mesos.ExecutorID,
 	envId uid.ID,
 	descriptorDetector string,
 	offerIDsToDecline map[mesos.OfferID]struct{},
 ) (*Task, *mesos.TaskInfo) {
+
+	// We work on a copy of what is left of the offer, and only write it back once the task is built:
+	// a task that cannot be built must not consume anything.
+	remainingResourcesInOffer := remainingResourcesInOfferPtr.Clone()
+
+	// The static port ranges of the task class are taken out first, so that neither a dynamic channel
+	// port nor the control port can be picked from them, and no other task of this offer can get them.
+	for _, rng := range wants.StaticPorts {
+		remainingResourcesInOffer.Subtract(resources.Build().
+			Name(resources.Name("ports")).
+			Ranges(resources.BuildRanges().Span(rng.Begin, rng.End).Ranges).Resource)
+	}
 
 	bindMap := make(channel.BindMap)
 	for _, ch := range wants.InboundChannels {
@@ -1353,6 +1380,9 @@ func makeTaskForMesosResources(
 			}
 			// TODO: this can be optimized by excluding the base range outside the loop
 			availPorts = availPorts.Remove(mesos.Value_Range{Begin: 0, End: 8999})
+			if len(availPorts) == 0 { // no port left for this channel, the task does not fit this offer
+				return nil, nil
+			}
 			port := availPorts.Min()
 			builder := resources.Build().
 				Name(resources.Name("ports")).
@@ -1416,6 +1446,9 @@ func makeTaskForMesosResources(
 	// The control port range starts at 47101
 	// FIXME: make the control ports cutoff configurable
 	availPorts = availPorts.Remove(mesos.Value_Range{Begin: 0, End: 29999})
+	if len(availPorts) == 0 { // no port left for the control port, the task does not fit this offer
+		return nil, nil
+	}
 	controlPort := availPorts.Min()
 	builder := resources.Build().
 		Name(resources.Name("ports")).
@@ -1527,6 +1560,12 @@ func makeTaskForMesosResources(
 		}()).
 		Debug("creating Mesos task")
 	resourcesRequest.Add(executorResources...)
+
+	// The ports are already out of what is left of the offer, CPU and memory (including the executor's
+	// share) follow, and the next task of this offers round sees what is really left.
+	remainingResourcesInOffer.Subtract(resources.NewCPUs(wants.Cpu).Resource, resources.NewMemory(wants.Memory).Resource)
+	remainingResourcesInOffer.Subtract(executorResources...)
+	*remainingResourcesInOfferPtr = remainingResourcesInOffer
 
 	newTaskId := taskPtr.GetTaskId()
 
